@@ -41,6 +41,7 @@ class ClassInfo:
     bases: list[str] = field(default_factory=list)  # resolved quals where possible, else text
     methods: dict[str, "FuncInfo"] = field(default_factory=dict)
     fields: dict[str, Optional[ast.expr]] = field(default_factory=dict)  # name -> annotation
+    init_values: dict[str, ast.expr] = field(default_factory=dict)  # self.<name> = <expr> in __init__
     class_attrs: dict[str, ast.expr] = field(default_factory=dict)  # name -> value expr
     outer: Optional["FuncInfo"] = None
 
@@ -250,6 +251,8 @@ class Repo:
                 ):
                     if tgt.attr not in cls.fields or cls.fields[tgt.attr] is None:
                         cls.fields[tgt.attr] = ann if ann is not None else _ctor_ann(val)
+                    if val is not None:
+                        cls.init_values.setdefault(tgt.attr, val)
         return fi
 
     @staticmethod
@@ -470,3 +473,15 @@ def set_repo(repo: Repo | None) -> None:
         common._scan = None
     except Exception:
         pass
+
+
+def _read_list(name):
+    path = os.path.join(os.path.dirname(os.path.abspath(__file__)), name)
+    try:
+        return {l.strip() for l in open(path) if l.strip() and not l.startswith("#")}
+    except OSError:
+        return set()
+
+
+KNOWN_FUNCS = _read_list("known_functions.txt")
+KNOWN_CLASSES = _read_list("known_classes.txt")
